@@ -194,7 +194,7 @@ func ruleFoldKind(p *Prog, r *Result) {
 			}
 		})
 	}
-	r.floor("folded literal constructions", n, 6)
+	r.floor("folded literal constructions", n, 3)
 }
 
 func ruleFoldErr(p *Prog, r *Result) {
